@@ -35,6 +35,9 @@ CHECKS = {
  'C18': dict(tech='Kani (CBMC) harnesses on the real unsafe code of /repo with an ownership-tracking element type: IntoIter as a data structure (all histories of front/back pulls, then drop), conversions, slice views; unwinding assertions on',
              text='Kani proofs on the real code, per vector type / matrix size and layout: for every history of next/next_back calls (symbolic choice per step, 0..N+2 steps) followed by dropping the iterator, each element is yielded once or dropped once, len/size_hint match, None iff exhausted; Debug/Hash/PartialEq on a partially consumed iterator touch live elements only; From<[T;N]>, into_array, into_tuple, from_iter/from_slice/collect and the matrix row/column (nested) array conversions move each element exactly once in the documented order; as_slice/as_mut_slice/Deref/AsRef/Borrow and as_row_slice/as_col_slice alias the value storage, one entry per element in declaration order (this discharges the as_slice/IndexMut contracts that the Verus units assume). Quick tier: dimensions <= 4 (+ Vec8 views); thorough: 8, 16, 32, 64.',
              note='Trusted: Kani 0.68 / CBMC memory model and unwinding assertions; element types Tok (non-Copy), u8/u16/u64; generic T only through these instantiations; termination not proved. Genuine defect found and repaired (fix: commit): derived Debug/Hash/PartialEq on IntoIter.', ref='5 C18'),
+ 'C19': dict(tech='Verus contracts per element (generic T for pure element movement; exact scalar for colour arithmetic) on the extracted From conversions between the 13 vector types, swizzles, with_*, unit/direction constructors, ShuffleMask4 (bit-vector proofs) and lane shuffles, colour helpers; theorem functions for embedding/multiplication commutation, inverted_rgb involution, all shuffle index tuples',
+             text='Deductive proof: every From between vector kinds/sizes keeps order, drops trailing elements or appends zeros (or the supplied scalar; w=1 points, w=0 directions); named swizzles and with_* permute/replace exactly the named elements; ShuffleMask4::new/to_indices pack and unpack indices modulo 4 for all usize tuples (by bit_vector) and shuffle_lo_hi/shuffled pick (lo[a%4], lo[b%4], hi[c%4], hi[d%4]); interleave/move helpers match their lane diagrams; unit vectors and the named directions; colour constructors, named colours, inverted_rgb (involution keeping alpha), average_rgb, ARGB/BGRA/BGR reorderings; Mat4::from(m3)*from_direction/from_point(v) == from_direction/from_point(m3*v).',
+             note=TB + 'ColorComponent is a prelude stand-in (full = opaque constant); From<[T;N]> is unsafe code proved by Kani (C18).', ref='5 C19'),
  'C06': dict(tech='Verus contracts (cofactor/Leibniz determinant, adjugate/determinant inverse) on the extracted determinant/inverted/Mul functions + z3 (QF_NRA) lemmas for det multiplicativity, transpose invariance and M*adj/det = I, glued by Verus-checked theorem functions over the real API',
              text='Deductive proof: determinant (2,3,4; both layouts) equals the cofactor expansion; Mat4::inverted (2x2-block algorithm through the real shuffle/mat2 helper code incl. the bit-packed ShuffleMask4) returns adj(M)/det(M) whenever det != 0; theorem functions calling the real API prove det(M^T)=det(M), layout invariance, det(AB)=det(A)det(B) and M*M^-1 = M^-1*M = I for every real matrix with non-zero determinant, with the polynomial/rational identities discharged by z3 (nlsat / solve-eqs+smt portfolio).',
              note=TB + 'The rigid and affine fast inverses are not yet under contract (listed under not_decided).', ref='5 C06'),
